@@ -60,24 +60,33 @@ Fixpoint cache_find (c : cache) (k : name) : option (N * N) :=
 
 Definition ptr_usable (off depth : N) : bool := (off <=? 16383) && (depth <? ptr_limit).
 
-(* bytes written, (suffix, offset) of the labels written verbatim, pointers a reader will follow *)
-Fixpoint write_name_aux (c : cache) (off : N) (n : name) : bytes * list (name * N) * N :=
+(* bytes written, (suffix, offset) of the labels written verbatim, pointers a reader will follow.
+   None = the Go code panics (a label of length 0 or above 63 is about to be written). *)
+Fixpoint write_name_aux (c : cache) (off : N) (n : name) : option (bytes * list (name * N) * N) :=
   match n with
-  | [] => ([0], [], 0)
+  | [] => Some ([0], [], 0)
   | l :: rest =>
     let verbatim :=
-      let '(bs, ents, d) := write_name_aux c (off + 1 + blen l) rest in
-      (blen l :: l ++ bs, (n, off) :: ents, d) in
+      if (blen l =? 0) || (63 <? blen l) then None
+      else match write_name_aux c (off + 1 + blen l) rest with
+           | None => None
+           | Some (bs, ents, d) => Some (blen l :: l ++ bs, (n, off) :: ents, d)
+           end in
     match cache_find c n with
     | Some (p, d) =>
-      if ptr_usable p d then ([192 + p / 256; p mod 256], [], d + 1) else verbatim
+      if ptr_usable p d then Some ([192 + p / 256; p mod 256], [], d + 1) else verbatim
     | None => verbatim
     end
   end.
 
-Definition write_name (c : cache) (off : N) (n : name) : bytes * cache :=
-  let '(bs, ents, d) := write_name_aux c off n in
-  (bs, map (fun e => {| ce_key := fst e; ce_off := snd e; ce_depth := d |}) ents ++ c).
+Definition mk_entries (ents : list (name * N)) (d : N) : cache :=
+  map (fun e => {| ce_key := fst e; ce_off := snd e; ce_depth := d |}) ents.
+
+Definition write_name (c : cache) (off : N) (n : name) : option (bytes * cache) :=
+  match write_name_aux c off n with
+  | None => None
+  | Some (bs, ents, d) => Some (bs, mk_entries ents d ++ c)
+  end.
 
 (* the uncompressed form (what a fresh builder writes for a single name) *)
 Fixpoint name_wire (n : name) : bytes :=
